@@ -145,3 +145,6 @@ def run(facts, chk, tier, only=None):
     chk.guard('C03.column', 'C03.column:run', lambda: check_column(facts, chk))
     chk.guard('C03.gap', 'C03.gap:run', lambda: check_gap(facts, chk))
     chk.guard('C03.fasta', 'C03.fasta:run', lambda: check_fasta(facts, chk))
+    # every sample is built with the shared SplitKmer iterator: windows at record ends / short contigs (C01.guard)
+    from . import c01
+    chk.guard('C03.window', 'C03.window:run', lambda: c01.check_guards(facts, chk, 'C03.window'))
